@@ -6,6 +6,36 @@ ROOT = os.path.dirname(os.path.abspath(__file__))
 
 # id -> (level category, technique, level text, level note, design ref)
 CLAIMED = {
+    "C01": ("fault_enumeration",
+            "rapid-generated concurrent request storms with scripted per-attempt backend faults and drop/release schedules; history invariant (one response per request stream)",
+            "Generated histories of 1..4 pipelining clients against a scripted fake cluster (every error kind, hold, silence, connection drop before/after reply, simultaneous drops of several hosts), plus slow-consumer floods beyond the write-queue size; the oracle counts response frames per request stream after a positive wait, an OPTIONS fence and socket quiescence. The property quantifies over schedules and fault sequences, which a search over generated fault scripts explores but cannot exhaust.",
+            "Internal goroutine interleavings are sampled, not enumerated; 'never two' is decided after a fence plus 8ms of silence; replies lost together with a reset connection are attributed to the connection loss.",
+            "DESIGN.md §2.1"),
+    "C02": ("exploration",
+            "rapid-generated collision histories (equal stream ids on several clients, held replies released in generated permutations, stream-id recycling, stream exhaustion, late heartbeat replies); token round-trip oracle",
+            "Every forwarded request carries a unique token that the fake backend echoes; the check compares the token received on (client, stream) with the one sent there, across >2048-request recycling of backend stream ids, >2048 simultaneously held requests and late replies to timed-out internal requests.",
+            "Trusts the token echo of the fake backend; backend stream ids themselves are not inspected.",
+            "DESIGN.md §2.2"),
+    "C04": ("fault_enumeration",
+            "rapid-generated non-idempotent requests (ground truth from the CQL generator) with per-attempt fault scripts; invariant over the backend attempt log",
+            "For requests that are not positively idempotent by construction, scripts place one maybe-applied outcome (write timeout, server/overloaded/truncate error, failure, connection loss, silence, hold) before entries that must never be consumed; the backend's attempt log must show no attempt after such an outcome and the client must get that error or a connection-lost error.",
+            "Idempotency ground truth comes from cqlgen's derivation and from which ids were PREPAREd through the proxy; syntactically broken DML is not generated (the classifier is not a validator).",
+            "DESIGN.md §2.4"),
+    "C05": ("fault_enumeration",
+            "exhaustive enumeration of the retry decision functions + rapid-generated outcome scripts executed end to end against an independent model of the documented policy",
+            "The four decision functions are enumerated exhaustively over retry counts 0..5, field values 0..5, all write types and error kinds; end to end, the backend attempt trace (host, outcome) and the client's reply of every request must equal the trace computed by a reference implementation of the documented policy (plan order, skipped hosts, same/next host, exhaustion).",
+            "Requests of a case run sequentially; connection-loss scripts only on the last request of a case so that pool reconnection cannot make host availability ambiguous; plan start inferred from the first attempt.",
+            "DESIGN.md §2.5"),
+    "C06": ("exploration",
+            "grammar-based generation of CQL with ground truth by construction (rapid), metamorphic planting, re-spelling, arbitrary-input totality; native fuzz target in thorough",
+            "Statements are derived from a grammar of the documented DML forms with planted non-idempotent constructs at every term position; oracles: planted => false, plain sub-grammar => true, all re-spellings agree, arbitrary input terminates, err => false. A pure function, so large case counts are cheap.",
+            "Ground truth is the generator's derivation; the promised-idempotent sub-grammar excludes function calls, casts and set removal (checked for stability only).",
+            "DESIGN.md §2.6"),
+    "C11": ("exploration",
+            "differential and round-trip testing against the reference protocol codec over generated messages, prefixes and mutants (rapid); native fuzz target in thorough",
+            "QUERY/EXECUTE/BATCH messages over the full option space for v3,v4,v5,DSEv1,DSEv2 are encoded by the reference codec and decoded the way the proxy does; extracted fields must agree, re-encoding must reproduce the bytes, cuts inside the leading fields must be rejected, accepted mutants must re-encode to a fixpoint and agree with the reference decoder.",
+            "The reference library is the wire-format oracle; leniency it shares with the partial codecs (negative [long string] length read as empty) is not flagged.",
+            "DESIGN.md §2.11"),
     "C15": ("exploration",
             "exhaustive enumeration of bounded event histories + rapid state-machine histories + concurrent generated schedules, against a set/rotation reference model",
             "Every event history over 4 hosts up to length 4 (quick) / 5 hosts up to length 5 (thorough) is enumerated with plans created, held and drained after every prefix; longer random histories, the 2^32/2^64 counter boundaries (hook) and a concurrent variant are searched with rapid. A pure in-memory API, so exhaustive-to-a-bound plus random search is the natural level.",
